@@ -68,6 +68,7 @@ type viewTrack struct {
 	reloadNew         map[string]bool // values a key got in a snapshot that changed the key's value
 	snapAmbig         map[string]bool // values held by >= 2 keys in a served snapshot
 	snapshots         int
+	lastSnapshot      time.Time
 	dupWatch          bool // two watch streams on the range were open at the same time
 	deliveries        int
 	lastDelivery      time.Time
@@ -334,6 +335,7 @@ func (s *store) live(prefix string) map[string]string {
 func (s *store) noteSnapshot(rangeKey string, kvs []*mvccpb.KeyValue) {
 	v := s.view(rangeKey)
 	v.snapshots++
+	v.lastSnapshot = time.Now()
 	n := map[string]string{}
 	cnt := map[string]int{}
 	for _, kv := range kvs {
